@@ -207,6 +207,7 @@ CATALOGUE = [
     ("woff2-reader-accepts-longer-stream", "ttLib/woff2.py", "        if len(decompressedData) != totalUncompressedSize:", "        if len(decompressedData) < totalUncompressedSize:", "C04", "WOFF2ReaderOffsets", "alarm"),
     ("woff2-loca-stays-transformed-after-glyf-gave-up", "ttLib/woff2.py", '                    transformedTables.discard("loca")', "                    pass", "C04", "WOFF2TransformTablesLoop", "alarm"),
     ("woff2-transformed-flag-set-then-cleared", "ttLib/woff2.py", "                if data is not None:\n                    entry.transformed = True", "                entry.transformed = True", "C04", "WOFF2TransformTablesLoop", "green"),
+    ("overflow-promotes-after-a-successful-split", "ttLib/tables/otBase.py", "        if ok:\n            return ok\n\n        # Try upgrading lookup to Extension and hope", "        # Try upgrading lookup to Extension and hope", "C06", "ResolveOverflowChoice", "alarm"),
     ("closure-memo-subset-spelling", "subset/__init__.py", "    if cur_glyphs.issubset(covered):\n        return\n    covered.update(cur_glyphs)\n\n    for st in self.SubTable:", "    if cur_glyphs <= covered:\n        return\n    covered.update(cur_glyphs)\n\n    for st in self.SubTable:", "C07", "LookupClosureMemo", "green"),
 ]
 
